@@ -99,6 +99,53 @@ res.append(run('setstate: forgets _log', B, [(MG, '''    def __setstate__(self, 
         self._log = logging.getLogger(__name__)
 ''', '''    def __setstate__(self, state: Mapping) -> None:
 ''')]))
+# ---- round 2d: alias of a bound helper, keyword calls, walrus in an if-test, try block moved to a module function
+HELPER_OK = '\n    @staticmethod\n    def _mk(seq, label):\n        return ModelGroup(seq, name=label) if seq else None\n\n    def __repr__(self) -> str:\n'
+REPR = '\n    def __repr__(self) -> str:\n'
+SG_ALIAS = '        mk = self._mk\n        self._scene_generation = mk(scene_generation, label="scene_generation")\n'
+res.append(run('ctor: local alias of a staticmethod helper, keyword call', E, [(PL, SG, SG_ALIAS), (PL, REPR, HELPER_OK)]))
+res.append(run('ctor: alias through the class name, both by keyword', E, [(PL, SG, '        mk = DetectionPipeline._mk\n        self._scene_generation = mk(label="scene_generation", seq=scene_generation)\n'), (PL, REPR, HELPER_OK)]))
+res.append(run('ctor: aliased helper tests `is not None` (empty list gives a group)', B, [(PL, SG, SG_ALIAS), (PL, REPR, HELPER_OK.replace('if seq else', 'if seq is not None else'))]))
+res.append(run('ctor: aliased helper fed another keyword', B, [(PL, SG, '        mk = self._mk\n        self._scene_generation = mk(photon_collection, label="scene_generation")\n'), (PL, REPR, HELPER_OK)]))
+res.append(run('ctor: aliased helper, keywords crossed', B, [(PL, SG, '        mk = self._mk\n        self._scene_generation = mk(label=scene_generation, seq="scene_generation")\n'), (PL, REPR, HELPER_OK)]))
+res.append(run('ctor: alias rebound to another helper before use', B, [(PL, SG, '        mk = self._mk\n        mk = self._mk2\n        self._scene_generation = mk(scene_generation, label="scene_generation")\n'), (PL, REPR, HELPER_OK + '        pass\n\n    @staticmethod\n    def _mk2(seq, label):\n        return None\n\n    def __repr2__(self) -> str:\n')]))
+res.append(run('run_pipeline: walrus in the if-test', E, [(PR, RP, '            if grp := getattr(self.pipeline, group_name):\n                grp.run(detector=self.detector, debug=debug)\n')]))
+res.append(run('run_pipeline: walrus under not + continue', E, [(PR, RP, '            if not (grp := getattr(self.pipeline, group_name)):\n                continue\n            grp.run(detector=self.detector, debug=debug)\n')]))
+res.append(run('run_pipeline: walrus as left operand of a comparison, first operand of and', E, [(PR, RP, '            if (grp := getattr(self.pipeline, group_name)) is not None and grp:\n                grp.run(detector=self.detector, debug=debug)\n')]))
+res.append(run('run_pipeline: walrus, wrong polarity', B, [(PR, RP, '            if (grp := getattr(self.pipeline, group_name)) is None:\n                grp.run(detector=self.detector, debug=debug)\n')]))
+res.append(run('run_pipeline: walrus with an extra condition', B, [(PR, RP, '            if (grp := getattr(self.pipeline, group_name)) and not debug:\n                grp.run(detector=self.detector, debug=debug)\n')]))
+res.append(run('run_pipeline: walrus in the second operand (conditionally bound)', B, [(PR, RP, '            if debug and (grp := getattr(self.pipeline, group_name)):\n                grp.run(detector=self.detector, debug=debug)\n')]))
+res.append(run('run_pipeline: walrus fetches from another object', B, [(PR, RP, '            if grp := getattr(self, group_name, None):\n                grp.run(detector=self.detector, debug=debug)\n')]))
+TRY = """            try:
+                model(detector)
+            except Exception as exc:
+                if sys.version_info >= (3, 11):
+                    note = (
+                        f"This error is raised in group '{self._name}' at "
+                        f"model '{model.name}' ({model._func_name})."
+                    )
+                    exc.add_note(note)
+
+                raise
+"""
+CLS = '# TODO: These methods could also be as a `abc.Sequence` with magical methods:\n'
+FN = """def _apply(det, m, where):
+    try:
+        m(det)
+    except Exception as err:
+        if sys.version_info >= (3, 11):
+            err.add_note(f"This error is raised in group '{where}' at model '{m.name}' ({m._func_name}).")
+        raise
+
+
+"""
+res.append(run('group.run: try block moved to a module function, keyword call', E, [(MG, TRY, '            _apply(m=model, det=detector, where=self._name)\n'), (MG, CLS, FN + CLS)]))
+res.append(run('group.run: module function bound to a local first', E, [(MG, TRY, '            apply(detector, model, self._name)\n'), (MG, '        for model in self:\n', '        apply = _apply\n        for model in self:\n'), (MG, CLS, FN + CLS)]))
+res.append(run('group.run: module function calls the model twice (retry)', B, [(MG, TRY, '            _apply(detector, model, self._name)\n'), (MG, CLS, FN.replace('        raise\n', '        m(det)\n') + CLS)]))
+res.append(run('group.run: module function, arguments crossed', B, [(MG, TRY, '            _apply(model, detector, self._name)\n'), (MG, CLS, FN + CLS)]))
+res.append(run('group.run: module function runs the model on a copy', B, [(MG, TRY, '            _apply(detector, model, self._name)\n'), (MG, CLS, FN.replace('        m(det)\n', '        m(copy.copy(det))\n') + CLS)]))
+res.append(run('call: alias of a bound helper method', E, [(MF, CALL, '        invoke = self._invoke\n        invoke(det=detector)\n\n    def _invoke(self, det) -> None:\n        self.func(det, **self.arguments)\n')]))
+res.append(run('call: alias of a bound helper that drops the arguments', B, [(MF, CALL, '        invoke = self._invoke\n        invoke(det=detector)\n\n    def _invoke(self, det) -> None:\n        self.func(det)\n')]))
 print(sum(res), '/', len(res))
 shutil.rmtree(BASE, ignore_errors=True)
 sys.exit(0 if all(res) else 1)
